@@ -221,6 +221,14 @@ def main(argv):
                 continue
             info = hh.runner_info(binp)
             configs_stats.append(run_config(res, pid, tier, seed, c, binp, info, workdir))
+            # masked-CPUID runs (std builds without compile-time features: run-time detection decides)
+            if P.PROPS[pid].get("cpus") and "-std-" in c and info.get("tf_avx2") == "0" and info.get("tf_sse41") == "0":
+                for cpu in P.PROPS[pid]["cpus"]:
+                    minfo = hh.runner_info(binp, cpu)
+                    if not minfo or "arch" not in minfo:
+                        res.notes.append(f"CPUID faulting unavailable: masked run {c}/{cpu} not executed")
+                        continue
+                    configs_stats.append(run_config(res, pid, tier, seed, c, binp, minfo, workdir, cpu=cpu))
     if special:
         special(res, tier, seed, workdir, configs_stats)
     return finish(res, proofs_ok, configs_stats)
